@@ -135,6 +135,17 @@ def nhFromBytes (b : Bytes) : Option Nh :=
 
 def segTypesOk (segs : List Seg) : Bool := segs.all (fun s => 1 ≤ s.1 ∧ s.1 ≤ 4)
 
+/-- AIGP TLV walk of `Attribute::decode` -/
+def aigpOk (b : Bytes) : Bool :=
+  if h : b.length = 0 then true
+  else if h3 : b.length < 3 then false
+  else
+    let tl := beNat ((b.drop 1).take 2)
+    if h4 : tl < 3 ∨ b.length < tl then false
+    else aigpOk (b.drop tl)
+termination_by b.length
+decreasing_by simp only [List.length_drop]; omega
+
 /-- `Attribute::decode` (data part); `none` = `Err(())`. -/
 def decodeAttrData (code : Nat) (v : Bytes) (twoByte : Bool) : Option AData :=
   if code = 1 then
@@ -170,6 +181,12 @@ def decodeAttrData (code : Nat) (v : Bytes) (twoByte : Bool) : Option AData :=
       | none => none
   else if code = 18 then
     if v.length = 8 then some (.bin v) else none
+  else if code = 3 then
+    -- NEXT_HOP is one IPv4 address (RFC 4271 §4.3)
+    if v.length = 4 then some (.bin v) else none
+  else if code = 26 then
+    -- AIGP: a sequence of TLVs, 1-byte type, 2-byte length that includes these three bytes (RFC 7311 §3)
+    if aigpOk v then some (.bin v) else none
   else some (.bin v)
 
 /-- State of the attribute loop of the UPDATE arm. -/
@@ -191,7 +208,18 @@ def attrStep (twoByte : Bool) (st : ASt) (r : RawAttr) : Option ASt :=
     match canonicalFlags r.code with
     | some exp =>
         if r.flags / 64 % 4 ≠ exp / 64 % 4 then
-          some { st with errs := st.errs ++ [(r.code, r.flags)] }
+          -- RFC 7606 §3(c): wrong Optional/Transitive bits are an error; MP_REACH/MP_UNREACH are still decoded
+          -- (their prefixes must be withdrawn), any other attribute is skipped
+          let st := { st with errs := st.errs ++ [(r.code, r.flags)] }
+          if r.code = 14 then
+            match decodeAttrData r.code r.val twoByte with
+            | some d => some { st with mpReach := d.binary? }
+            | none => some { st with errs := st.errs ++ [(r.code, r.flags)] }
+          else if r.code = 15 then
+            match decodeAttrData r.code r.val twoByte with
+            | some d => some { st with mpUnreach := d.binary? }
+            | none => some { st with errs := st.errs ++ [(r.code, r.flags)] }
+          else some st
         else
           match decodeAttrData r.code r.val twoByte with
           | some d =>
